@@ -447,6 +447,47 @@ def shrink_triple(case):
             yield c2
 
 
+# ------------------------------------------------------------------ heterogeneous pairs
+
+
+def het_codes(name):
+    codes = name.split("@")[0].split(" <- ")
+    return parse_sexp(codes[0]), parse_sexp(codes[1])
+
+
+def gen_het(rng, names, n):
+    cases = []
+    per = max(4, n // max(1, len(names)))
+    for name in names:
+        ts, to = het_codes(name)
+        for _ in range(per):
+            a = gen_value(rng, ts)
+            b = gen_value(rng, to) if rng.below(4) < 3 else perturb(rng, to, gen_value(rng, to))
+            cases.append({"k": "het", "ty": name, "a": a, "b": b, "src": "rnd"})
+    return cases
+
+
+def het_term(case, res):
+    if "ab" not in res:
+        return 3
+    t, _ = het_codes(case["ty"])
+    ct = coq_ty(t)
+    obs = "(Build_hobs %s %s %s %s %s %s %s %s %s %s)" % (
+        ct, coq_mres(t, res["ab"]), g_cmp(res["cmp_ab"]), g_bool(res["eq_ab"]), coq_val(t, res["from_b"]),
+        coq_mres(t, res["hom_ab"]), g_cmp(res["hom_cmp_ab"]), g_bool(res["hom_eq_ab"]),
+        g_bool(res["bot_b"]) if res["bot_b"] is not None else "(isbot (ops %s) %s)" % (ct, coq_val(t, case["b"])),
+        g_bool(res["top_b"]) if res["top_b"] is not None else "(istop (ops %s) %s)" % (ct, coq_val(t, case["b"])))
+    return "(chk_het %s %s %s %s)" % (ct, coq_val(t, case["a"]), coq_val(t, case["b"]), obs)
+
+
+def shrink_het(case):
+    ts, to = het_codes(case["ty"])
+    for sv in shrink_value(to, case["b"]):
+        yield dict(case, b=sv, src="shrunk")
+    for sv in shrink_value(ts, case["a"]):
+        yield dict(case, a=sv, src="shrunk")
+
+
 def triple_distribution(cases, results):
     d = {"per_type": {}, "cmp_ab": {}, "changed_ab": {"true": 0, "false": 0}, "src": {}, "panics": 0}
     for c, r in zip(cases, results):
